@@ -11,7 +11,10 @@ does rather than on how it is spelled (see REPORT-C04.md):
     keep-armed decision (R-C04f) and of the timeout that reaches the kernel
     (R-C04g) in the calling context (helpers inlined);
   * must / disjunctive dataflow for cache invalidation (R-C04b), re-evaluation
-    after a wake (R-C04c), exactly-once structure (R-C04d), deadline origins (R-C04e).
+    after a wake (R-C04c), exactly-once structure (R-C04d), deadline origins (R-C04e);
+  * evaluation of the exported timer calls on states (h05.Machine, from the facts) over
+    bounded histories, observed through the loop's deadline query: the deadline is the
+    earliest registered expiry after every register / unregister (R-C04h).
 
 Anchors: exported functions, poll-method slots, sites (method->poll, list links
 through list_expired, kernel wait primitives, iv_time_get, timerfd_settime), typed
@@ -61,7 +64,8 @@ def _heap_order_comparators(prog, comps):
 def cmp_tables(ctx, rid):
     """Every pure two-timespec comparator of the program is evaluated over the 9 orders of (seconds, nanoseconds):
     one that returns a negative value somewhere must be the three-way lexicographic order (a NULL first argument = +infinity
-    when it tests for it); one that is applied to two timer expiries (the heap order) must be exactly "strictly later";
+    when it tests for it); one that is applied to two timer expiries (the heap order) must be a lexicographic order, checked order by order
+    (which one -- strictly later, or its negation read the other way by the caller -- is judged in use: R-C04h);
     any other 0/1 predicate must at least be one of the four lexicographic orders.  (C04 additionally evaluates the
     expiry decision and the keep-armed decision in context, see expiry / keep_armed.)"""
     prog = ctx.prog
@@ -89,10 +93,17 @@ def cmp_tables(ctx, rid):
                        detail='a NULL deadline compares later than any stored deadline (returns %s)' % r, fn=f.q)
         elif f.name in heap:
             nstrict += 1
+            # Which of the lexicographic orders a helper computes is its own business ("not later" is "strictly later" read the
+            # other way by its caller): demanded is that it is one of them, order by order against the one it agrees with most
+            # ("strictly later" first).  That the store ordered with it keeps the earliest timer where the loop looks is decided
+            # on states by R-C04h.
+            shapes = {op: {o: int(interp.cmp_holds(h.lex(o), op)) for o in h.ORDERS} for op in ('>', '>=', '<', '<=')}
+            best = max(('>', '>=', '<', '<='), key=lambda op: sum(1 for o in h.ORDERS if tab[o] == shapes[op][o]))
             for (so, no), r in sorted(tab.items()):
-                want = int(h.lex((so, no)) == '>')
+                want = shapes[best][(so, no)]
                 ctx.ob(rid, '%s:sec%s,nsec%s' % (f.name, so, no), r == want, loc=f.loc,
-                       detail='returns %s, strictly-later order (the heap order of the timers) requires %d' % (r, want), fn=f.q)
+                       detail='returns %s, the lexicographic order "first %s second" (the heap order of the timers) requires %d'
+                              % (r, best, want), fn=f.q)
         else:
             shapes = {op: {o: int(interp.cmp_holds(h.lex(o), op)) for o in h.ORDERS} for op in ('<', '<=', '>', '>=')}
             ok = any(all(tab[o] == sh[o] for o in h.ORDERS) for sh in shapes.values())
@@ -107,7 +118,7 @@ def run(ctx):
     ctx.rule('R-C04a', 'a timer is moved to the expired batch only on the not-later-than-now edge of the strict comparison of its '
                        'expiry with the loop clock, and the loop clock is valid there', floor=3)
     ctx.rule('R-C04a.cmp', 'comparator tables over all 9 orderings of (sec, nsec): the expiry decision evaluated in context is exactly '
-                           '"expiry not later than clock"; the comparator used as heap order is exactly "strictly later"; a three-way '
+                           '"expiry not later than clock"; the comparator used as heap order is a lexicographic order of the two expiries; a three-way '
                            'comparator is the lexicographic order with NULL = +infinity', floor=18)
     ctx.rule('R-C04b', 'the cached time dies with every wait: in every poll slot every path from the wait primitive to a return '
                        'invalidates the time cache', floor=4)
@@ -131,6 +142,13 @@ def run(ctx):
     ctx.section(rerun)
     ctx.section(once)
     ctx.section(deadline)
+    ctx.rule('R-C04h', 'the wait deadline is the earliest registered expiry after every history: the public timer calls are evaluated '
+                       '(from the facts) on up to 6 timers registered in every order, on every order-valid population of up to 7 timers '
+                       'with every timer cancelled / re-armed with another expiry, on pseudo-random histories of 8..24 timers and on one '
+                       'long history across the capacity boundary of the store; after every call iv_get_soonest_timeout() names a '
+                       'registered timer none of the others is earlier than, and no deadline exactly when nothing is registered; the '
+                       'timer it names is then taken off, as the runner does, until none is left', floor=15)
+    ctx.section(earliest)
 
 
 def _method_poll(e):
@@ -1198,3 +1216,338 @@ def deadline(ctx):
     ctx.ob('R-C04e', 'soonest:heap-root-when-nonempty', okroot and nroot > 0, loc=s.loc,
            detail='every non-NULL result is the address of the expiry of heap slot 1, returned on paths that saw num_timers != 0', fn=s.q)
     ctx.ob('R-C04e', 'soonest:null-when-empty', oknull and nnull > 0, loc=s.loc, detail='NULL (no deadline) is returned only on paths that saw num_timers == 0', fn=s.q)
+
+
+# ---------------------------------------------------------------------------------------
+# R-C04h: the deadline the loop waits for is the earliest registered expiry, after every history
+# ---------------------------------------------------------------------------------------
+# "Never oversleeps" is a statement about what iv_get_soonest_timeout() answers *after any sequence* of
+# iv_timer_register / iv_timer_unregister, not about one source construct: the rules above show that the wait gets
+# that answer (R-C04e) and that the runner examines that timer only (R-C04a); this one shows that the answer is the
+# minimum.  It is decided on states, observed exactly as the loop observes them; how the store keeps its order
+# (which helper sifts in which direction, loop forms, cached slots) is invisible to it.
+
+H_KINDS = (('calls-return', 'every evaluated call returns (no fatal path, no wild pointer, terminates)'),
+           ('deadline-is-earliest', 'the deadline is the expiry of a registered timer and no registered timer is earlier'),
+           ('none-iff-empty', 'there is no deadline exactly when no timer is registered'))
+H_SMALL = 7        # cancel: order-valid populations up to this size
+H_ORDERS = 6       # grow: all registration orders up to this size; rearm: populations up to this size
+H_MEDIUM = 68      # number of pseudo-random histories on 8..24 timers
+H_CLASSES = ('grow', 'cancel', 'rearm', 'medium', 'mixed')
+
+# a history is a list of calls ('R', timer, expiry it has at that call) / ('U', timer) / ('D', timer): unregister of the timer
+# the deadline named
+
+
+def _k(k):
+    return '%d.%03d' % k
+
+
+def _text(ops):
+    out = []
+    i = 0
+    if len(ops) > 60:
+        # a long history: its size, and the calls since the last registration in full
+        j = max([n for n, o in enumerate(ops) if o[0] == 'R'] + [0])
+        j = max(j - 3, len(ops) - 40, 0)
+        out.append('a history of %d registrations and %d cancellations anywhere' % (sum(1 for o in ops[:j] if o[0] == 'R'),
+                                                                                  sum(1 for o in ops[:j] if o[0] == 'U')))
+        i = j
+    first = i == 0
+    while i < len(ops):
+        j = i
+        while j < len(ops) and ops[j][0] == ops[i][0]:
+            j += 1
+        run = [_k(o[2]) for o in ops[i:j]]
+        if len(run) > 16:
+            run = run[:4] + ['...'] + run[-8:]
+        if ops[i][0] == 'R':
+            out.append(('registered in this order: %s' if first and len(run) > 1 else 'register of %s') % ' '.join(run))
+        elif ops[i][0] == 'U':
+            out.append('unregister of %s' % ' '.join(run))
+        else:
+            out.append('then the timer named by the deadline taken off %d times (%s)' % (j - i, ' '.join(run)))
+        first = False
+        i = j
+    return '; '.join(out) if out else 'nothing registered yet'
+
+
+class _Hist:
+    def __init__(self, W, quiet=False):
+        self.W = W
+        self.bad = {}
+        self.runs = {}
+        self.ops = {}
+        self.quiet = quiet
+
+    def ran(self, cls, kind):
+        self.runs[(cls, kind)] = self.runs.get((cls, kind), 0) + 1
+
+    def add(self, cls, kind, ops, detail, fn=None):
+        """first counterexample of (class, kind); fn: the function that itself misbehaved (None: to be attributed, _culprit)"""
+        if (cls, kind) not in self.bad:
+            self.bad[(cls, kind)] = detail if self.quiet else '%s: %s' % (_text(ops), detail)
+            self.ops[(cls, kind)] = (list(ops), fn, self.W.last)
+
+    def observe(self, cls, pending, ops):
+        """look at the deadline as the loop does; returns the registered timer it names (None: nothing to take off)"""
+        W = self.W
+        kind, k, t, text = W.deadline()
+        self.ran(cls, 'calls-return')
+        self.ran(cls, 'none-iff-empty')
+        if kind == 'fault':
+            self.add(cls, 'calls-return', ops, text, fn=W.f_soonest)
+            return None
+        if not pending:
+            if kind != 'none':
+                self.add(cls, 'none-iff-empty', ops, 'no timer is registered but the deadline is %s' % text)
+            return None
+        if kind == 'none':
+            self.add(cls, 'none-iff-empty', ops, '%d timers are registered but the loop is given no deadline' % len(pending))
+            return None
+        self.ran(cls, 'deadline-is-earliest')
+        lo = min(W.key[x] for x in pending)
+        if kind != 'timer' or not any(t is x for x in pending):
+            self.add(cls, 'deadline-is-earliest', ops, 'the deadline (%s) is not the expiry of a registered timer' % text)
+            return None
+        if k != W.key[t]:
+            self.add(cls, 'deadline-is-earliest', ops, 'the expiry of the timer named by the deadline was changed to %s' % text)
+        if W.key[t] != lo:
+            self.add(cls, 'deadline-is-earliest', ops,
+                     'the deadline is %s although the timer with the earlier expiry %s is registered: the loop sleeps past it '
+                     'and runs it after a later one' % (text, _k(lo)))
+        return t
+
+    def call(self, cls, what, t, ops):
+        """evaluate one public call (ops: the history including it); False when it did not return"""
+        self.ran(cls, 'calls-return')
+        fault = self.W.call('register' if what == 'R' else 'unregister', t)
+        if fault is not None:
+            self.add(cls, 'calls-return', ops, fault.msg, fn=self.W.last)
+            return False
+        return True
+
+    def reg(self, cls, t, ops, pending):
+        """register t and look at the deadline: (went on, history, registered timers)"""
+        ops = ops + [('R', t, self.W.key[t])]
+        if not self.call(cls, 'R', t, ops):
+            return False, ops, pending
+        pending = pending + [t]
+        self.observe(cls, pending, ops)
+        return True, ops, pending
+
+    def unreg(self, cls, t, ops, pending, tag='U'):
+        ops = ops + [(tag, t, self.W.key[t])]
+        if not self.call(cls, 'U', t, ops):
+            return False, ops, pending
+        pending = [x for x in pending if x is not t]
+        return True, ops, pending
+
+    def drain(self, cls, pending, ops):
+        """what the runner does when time passes: take off the timer the deadline names, until none is left"""
+        while True:
+            t = self.observe(cls, pending, ops)
+            if t is None:
+                return
+            ok, ops, pending = self.unreg(cls, t, ops, pending, 'D')
+            if not ok:
+                return
+
+
+def _culprit(W, ops, limit=80):
+    """The call a counterexample is blamed on: the first call of the history after which taking the deadline timers off one
+    by one goes wrong (the store is not in order any more, although the deadline may still be right).  (function, text) or None."""
+    if len(ops) > limit:
+        return None
+    W.fresh()
+    W.mark()
+    new = {}
+    pending = []
+    for n, (tag, t, key) in enumerate(ops):
+        if tag == 'R':
+            if t in new:
+                W.m.write(new[t], W.o_exp + W.o_sec, key[0])
+                W.m.write(new[t], W.o_exp + W.o_nsec, key[1])
+                W.key[new[t]] = key
+            else:
+                new[t] = W.timer(key)
+        if t not in new:
+            return None
+        fault = W.call('register' if tag == 'R' else 'unregister', new[t])
+        f = W.last
+        text = 'call %d of the history, %s of %s' % (n + 1, 'register' if tag == 'R' else 'unregister', _k(key))
+        if fault is not None:
+            return f, text
+        pending = (pending + [new[t]]) if tag == 'R' else [x for x in pending if x is not new[t]]
+        at = W.pos()
+        probe = _Hist(W, quiet=True)
+        probe.drain('probe', pending, [])
+        W.rollback(at)
+        if probe.bad:
+            return f, text
+    return None
+
+
+def _orders(R, W, keyof, ranks):
+    """class grow: the timers of the given ranks registered in every order (depth-first over the orders, shared prefixes
+    evaluated once), the deadline observed after every call; every complete population is then drained"""
+    W.fresh()
+    W.mark()
+    R.observe('grow', [], [])
+
+    def rec(ops, ts, left):
+        if not left:
+            R.drain('grow', ts, ops)
+            return
+        at = W.pos()
+        seen = set()
+        for j, r in enumerate(left):
+            if r in seen:                 # equal expiries: orders that differ only in which of them comes first are the same history
+                continue
+            seen.add(r)
+            ok, ops2, ts2 = R.reg('grow', W.timer(keyof(r)), ops, ts)
+            if ok:
+                rec(ops2, ts2, left[:j] + left[j + 1:])
+            W.rollback(at)
+    rec([], [], list(ranks))
+
+
+def earliest(ctx, rid='R-C04h'):
+    from . import h05
+    W = h.TimerWorld(ctx.prog)
+    R = _Hist(W)
+    keyof = h05.key_of_rank
+    # -- grow: every order of registration of up to 6 timers (a store that keeps its order by sifting is driven through every
+    #    sequence of sift decisions), incl. populations with equal expiries
+    for n in range(1, H_ORDERS + 1):
+        _orders(R, W, keyof, [2 * r for r in range(n)])
+    for n in range(2, H_ORDERS):
+        _orders(R, W, keyof, [2 * (r // 2) for r in range(n)])
+    # -- cancel / rearm on small populations: every arrangement a binary heap of n timers can be in is reached by registering in
+    #    slot order; for any other representation these are simply further histories
+    for n in range(1, H_SMALL + 1):
+        for hp in h05.heaps(n):
+            for ranks in [[2 * r for r in hp]] + ([[2 * (r // 2) for r in hp]] if 2 <= n <= 5 else []):
+                W.fresh()
+                ts, ops, ok = [], [], True
+                for r in ranks:
+                    ok, ops, ts = R.reg('cancel', W.timer(keyof(r)), ops, ts)
+                    if not ok:
+                        break
+                if not ok:
+                    continue
+                W.mark()
+                for v in ts:
+                    ok, ops2, rest = R.unreg('cancel', v, ops, ts)
+                    if ok:
+                        R.drain('cancel', rest, ops2)
+                    W.rollback()
+                if ranks[-1:] != [2 * hp[-1]] or len(set(ranks)) != n or n > H_ORDERS:
+                    continue
+                # a timer taken off and registered again with another expiry (what a handler or a caller re-arming it does),
+                # followed by one more registration
+                for v in ts:
+                    old = W.key[v]
+                    for r2 in ([2 * n + 1] if n > 4 else sorted({-1, 2 * n + 1, (ranks[len(ranks) // 2]) + 1})):
+                        ok, ops2, rest = R.unreg('rearm', v, ops, ts)
+                        if ok:
+                            R.observe('rearm', rest, ops2)
+                            k2 = keyof(r2)
+                            W.m.write(v, W.o_exp + W.o_sec, k2[0])
+                            W.m.write(v, W.o_exp + W.o_nsec, k2[1])
+                            W.key[v] = k2
+                            ok, ops2, rest = R.reg('rearm', v, ops2, rest)
+                            if ok:
+                                ok, ops2, rest = R.reg('rearm', W.timer(keyof(2 * n + 3)), ops2, rest)
+                            if ok:
+                                R.drain('rearm', rest, ops2)
+                        W.key[v] = old
+                        W.rollback()
+    # -- medium: pseudo-random histories on populations of 8..24 (holes and the last timers in different subtrees of a tree-shaped
+    #    store): registrations, cancellations of any timer and of the most recently registered ones, registrations in between
+    x = [20240917]
+
+    def rnd(m):
+        x[0] = (x[0] * 1103515245 + 12345) & 0x7fffffff
+        return (x[0] >> 8) % m
+    for hno in range(H_MEDIUM):
+        n = 8 + hno % 17
+        W.fresh()
+        live, ops, ok = [], [], True
+        for i in range(n):
+            ok, ops, live = R.reg('medium', W.timer(keyof(rnd(3 * n))), ops, live)
+            if not ok:
+                break
+        for c in range(1 + hno % 4):
+            if not ok or not live:
+                break
+            v = live[rnd(len(live))] if rnd(2) else live[-1 - rnd(min(3, len(live)))]
+            ok, ops, live = R.unreg('medium', v, ops, live)
+            if ok:
+                R.observe('medium', live, ops)
+            for extra in range(rnd(3) if ok else 0):
+                ok, ops, live = R.reg('medium', W.timer(keyof(rnd(3 * n) if rnd(2) else 3 * n + c)), ops, live)
+                if not ok:
+                    break
+        if ok:
+            R.drain('medium', live, ops)
+    # -- mixed: one long history: growth across the first capacity boundary of the store, cancellations anywhere mixed with
+    #    registrations, then time passes until nothing is left
+    fan = 128
+    try:
+        fan = int(W.m.ty.field('iv_timer_ratnode', 'child')['bound'])
+    except (AnalysisBroken, KeyError, TypeError, ValueError):
+        pass
+    W.fresh()
+    live, ops, ok = [], [], True
+    x[0] = 12345
+    i = 0
+    R.observe('mixed', live, ops)
+    while ok and i < fan + 13 + 90:
+        i += 1
+        if i > fan + 13 and live and rnd(3):
+            ok, ops, live = R.unreg('mixed', live[rnd(len(live))], ops, live)
+            if ok:
+                R.observe('mixed', live, ops)
+        else:
+            ok, ops, live = R.reg('mixed', W.timer(keyof(rnd(97) * 2 + (i & 1))), ops, live)
+    if ok:
+        R.drain('mixed', live, ops)
+    what = {'grow': (W.f_reg, 'up to %d timers registered in every order (incl. equal expiries), then drained through the deadline' % H_ORDERS),
+            'cancel': (W.f_unreg, 'every order-valid population of 1..%d timers, every timer of it unregistered, then drained' % H_SMALL),
+            'rearm': (W.f_reg, 'every order-valid population of 1..%d timers, every timer of it unregistered and registered again with '
+                               'another expiry (earlier than all / in the middle / later than all), one more registration, then drained' % H_ORDERS),
+            'medium': (W.f_unreg, '%d pseudo-random histories on 8..24 timers: cancellations of any and of the most recently registered '
+                                  'timers, registrations in between, drain' % H_MEDIUM),
+            'mixed': (W.f_unreg, 'growth to %d timers, %d cancellations anywhere mixed with registrations, drain' % (fan + 13, 90))}
+    blamed = {}
+    for cls in H_CLASSES:
+        f0, text = what[cls]
+        for (kind, ktext) in H_KINDS:
+            nrun = R.runs.get((cls, kind), 0)
+            bad = R.bad.get((cls, kind))
+            f = f0
+            if not nrun and bad is None:
+                other = sorted(k_ for (c, k_) in R.bad if c == cls)
+                if not other:
+                    raise AnalysisBroken('%s: no history of class %s was observed' % (kind, cls))
+                ctx.ob(rid, '%s:%s' % (cls, kind), False, loc=f.loc, fn=f.q,
+                       detail='%s -- never observed: every history of the class stopped before (%s)' % (ktext, ', '.join(other)))
+                continue
+            if bad is not None:
+                ops, f, last = R.ops[(cls, kind)]
+                if f is None:
+                    key = tuple((o[0] != 'R', id(o[1]), o[2]) for o in ops)
+                    if key not in blamed:
+                        try:
+                            blamed[key] = _culprit(W, ops)
+                        except AnalysisBroken:      # the counterexample stands; only its attribution to one call is not available
+                            blamed[key] = None
+                    if blamed[key] is not None:
+                        f = blamed[key][0]
+                        bad += ' -- the store is out of order from %s on (taking the deadline timers off one by one from there goes wrong)' \
+                               % blamed[key][1]
+                f = f or last or W.f_soonest        # not attributed: the last call made; wrong before any call: the deadline query
+            ctx.ob(rid, '%s:%s' % (cls, kind), bad is None, loc=f.loc, fn=f.q,
+                   detail=('%s; %s (%d observations)' % (ktext, text, nrun)) if bad is None
+                   else '%s -- violated after the history: %s' % (ktext, bad))
